@@ -291,6 +291,22 @@ func batom(v ssa.Value, depth int) string {
 		if callee(x) == "builtin:len" {
 			return "len(" + batom(x.Call.Args[0], depth+1) + ")"
 		}
+		// a new helper that computes the value ("m := c.limit()"): the forms of what it returns
+		if h := directCallee(x); h != nil && newHelpers[h] && h.Blocks != nil && h.Signature.Results().Len() == 1 && depth < 6 {
+			var parts []string
+			for _, r := range returnsOf(h) {
+				for _, l := range phiEdgesFlat(r.Results[0], 0) {
+					parts = append(parts, linearB(l, depth+3).String())
+				}
+			}
+			sort.Strings(parts)
+			if len(parts) == 1 {
+				return parts[0]
+			}
+			if len(parts) > 1 {
+				return "phi(" + strings.Join(parts, "|") + ")"
+			}
+		}
 		return "call:" + callee(x)
 	case *ssa.Extract:
 		if c, ok := x.Tuple.(*ssa.Call); ok {
@@ -316,6 +332,20 @@ func batom(v ssa.Value, depth int) string {
 		return batom(x.X, depth+1) + "[:]"
 	}
 	return fmt.Sprintf("?%T", v)
+}
+
+// phiEdgesFlat lists the values a returned value can be, looking through phis.
+func phiEdgesFlat(v ssa.Value, depth int) []ssa.Value {
+	if phi, ok := v.(*ssa.Phi); ok && depth < 4 {
+		var out []ssa.Value
+		for _, e := range phi.Edges {
+			if e != v {
+				out = append(out, phiEdgesFlat(e, depth+1)...)
+			}
+		}
+		return out
+	}
+	return []ssa.Value{v}
 }
 
 // bfield: "Type.field", with "[i]" in front when the struct is reached through an index
